@@ -27,6 +27,8 @@ func checkC12(c *Ctx, r *Report) {
 	borrow(c, r, checkC16, "C16.R2.no-buffer-alias", "C12.R4.no-buffer-alias", 100, "the decoded request shares no memory with the recycled receive buffer", nil, "the handler sees its request change when the buffer, back in the pool, receives another client's datagram")
 	borrow(c, r, c14R1, "C14.R1.short-packet", "C12.R2.short-packet", 1, "only datagrams shorter than a header are dropped before the handler", nil, "a request of exactly twelve octets (a bare header) never reaches its handler and gets no reply")
 	writeDeadline(c, r, "C12.R2.write-deadline")
+	readErrorKept(c, r, "C12.R1.read-error-kept")
+	readersCutToCount(c, r, "C12.R4.readers-cut-to-count")
 }
 
 func isConnRead(call *ssa.Call) bool {
